@@ -758,6 +758,15 @@ def c03(sc, V):
     veto = set(w["name"] for w in sc["watchers"] if "before_signal" in (w.get("hooks") or {}))
     # a watcher that has been removed (`rm`) is no longer in the snapshot: its workers are then known by the name of
     # their spawn line (blanks as underscores)
+    # … and a before_signal hook may be installed at run time (`set <w> hooks.before_signal …` / the `hooks` dict): from that
+    # request on the watcher's stop signals can be vetoed too (thorough seed 0 of session 5)
+    for x in V:
+        if x.kind() == "req" and x.cmd() == "set" and isinstance(x.op[1].get("properties"), dict):
+            pr = x.op[1]["properties"]
+            o = pr.get("options")
+            if isinstance(pr.get("name"), str) and isinstance(o, dict) and \
+                    ("hooks.before_signal" in o or (isinstance(o.get("hooks"), dict) and "before_signal" in o["hooks"])):
+                veto |= set(w["name"] for w in sc["watchers"] if w["name"].lower() == pr["name"].lower())
     veto |= set(n.replace(" ", "_") for n in veto)
     for s in V:
         if s.before.blocked:
@@ -1205,7 +1214,9 @@ def c14(sc, V, counters=None):
             pr = op[1].get("properties")
             if isinstance(pr, dict) and isinstance(pr.get("name"), str) and isinstance(pr.get("options"), dict):
                 tgt = [n for n in hooks if n.lower() == pr["name"].lower()]
-                refused = any(l[0] == "rep" and l[3] == "error" for l in s.lines)
+                # refused (an error reply in this step) or unknowable (a cast message is never answered: thorough seed 0 had a
+                # cast `set` with a bogus key that was taken for applied)
+                refused = any(l[0] == "rep" and l[3] == "error" for l in s.lines) or op[1].get("msg_type") == "cast"
                 for k_, v_ in pr["options"].items():
                     items = ([(k_.split(".")[-1], v_)] if k_.startswith("hooks.") else
                              list(v_.items()) if k_ == "hooks" and isinstance(v_, dict) else [])
